@@ -229,6 +229,11 @@ def run_schedule(ctx, case, chooser=None):
             if w not in wrappeds:
                 wrappeds[w] = LogCassette(fail_set(workload))
         cassettes = [A.AsyncRecordOnlyTapeCassette(wrappeds[w], flush_interval=0.1) for w, _ in sessions]
+        same_instance = len(sessions) == 2 and bool((workload.get('second') or {}).get('same_instance'))
+        if same_instance:
+            # the second session starts the SAME cassette object again after its close(): either that is refused loudly
+            # (start() raises) or the second session's recordings are stored like any others
+            cassettes[1] = cassettes[0]
         # locks that live on the cassette CLASSES (shared by every instance) are taken over as well
         class_locks = []
         for obj in list(cassettes) + list(wrappeds.values()):
@@ -261,7 +266,16 @@ def run_schedule(ctx, case, chooser=None):
             for i, (w, plist) in enumerate(sessions):
                 cas, wrapped = cassettes[i], wrappeds[w]
                 wrapped.closed = False    # a shared storage is opened again by the next session
-                cas.start()
+                if i == 1 and same_instance:
+                    try:
+                        cas.start()
+                    except RuntimeError:
+                        obs['restart_refused'] = True
+                        obs[i] = {'log_at_close': len(wrapped.log), 'wrapped_closed': True,
+                                  'at_close': wrapped.content()}
+                        continue
+                else:
+                    cas.start()
                 producers = []
                 for p in plist:
                     t = DS.CoThread(target=run_producer, args=(cas, p, workload['producers'][p], False))
@@ -289,6 +303,12 @@ def run_schedule(ctx, case, chooser=None):
                                 'thread-exception')
         if len(sessions) - 1 not in obs:
             raise Violation('close() never returned', 'termination')
+        if obs.get('restart_refused'):
+            # the refused session stored nothing: the expectation is the first session alone
+            first_only = dict(workload, producers=workload['producers'][:workload['second']['from']])
+            first_only.pop('second')
+            want = {0: twin_content(first_only)[0]}
+            sessions = [sessions[0], (sessions[1][0], [])]
         for i, (w, plist) in enumerate(sessions):
             wrapped = wrappeds[w]
             last_on_storage = 'at_close' in obs[i]
@@ -343,6 +363,8 @@ def check_case(ctx, case):
         'preemptions:%s' % min(sched.preemptions, 5), 'timer-firings:%s' % min(sched.timer_firings, 5),
         'failing-op' if fail_set(case['workload']) else 'no-failing-op', 'opcode' if case.get('opcode') else 'line',
         'sessions:%d' % len(sessions_of(case['workload'])),
+        'same-cassette-started-again' if (case['workload'].get('second') or {}).get('same_instance') and len(
+            sessions_of(case['workload'])) == 2 else 'fresh-cassette-per-session',
         'aborted-recording' if any(r.get('end') == 'abort' for recs in case['workload']['producers'] for r in recs)
         else 'all-saved'))
     ctx.count('steps', sched.steps)
@@ -358,7 +380,9 @@ recordings = st.fixed_dictionaries({'ops': st.lists(ops, max_size=5),
                                     'end': st.sampled_from(['save', 'save', 'save', 'abort'])})
 workloads = st.fixed_dictionaries(
     {'producers': st.lists(st.lists(recordings, min_size=1, max_size=2), min_size=1, max_size=3)},
-    optional={'second': st.fixed_dictionaries({'from': st.integers(1, 2), 'share': st.booleans()})})
+    optional={'second': st.one_of(
+        st.fixed_dictionaries({'from': st.integers(1, 2), 'share': st.booleans()}),
+        st.fixed_dictionaries({'from': st.integers(1, 2), 'share': st.just(True), 'same_instance': st.just(True)}))})
 scheds = st.one_of(
     st.fixed_dictionaries({'mode': st.just('pct'), 'prio': st.permutations(list(range(1, 7))),
                            'changes': st.lists(st.integers(1, 500), max_size=4)}),
